@@ -1,3 +1,4 @@
+import Ebu.Spec.Flow
 import Ebu.Props.C03
 import Ebu.Spec.Bus
 import Ebu.Proofs.BusFrame
@@ -108,5 +109,16 @@ registry mutator of the CURRENT source looks up and updates `shard.handlers` ins
 (fact table regenerated on every run), so concurrent callers cannot lose or resurrect each other's registrations -/
 theorem registry_calls_atomic : Ebu.Locks.RegistryOpsAtomic Ebu.Generated.accessFacts = true :=
   Ebu.Props.C03.facts_registry_ops_atomic
+
+/-! ### obligations on the control flow of the CURRENT source (`Ebu/Generated/Flow.lean`, regenerated from /repo on every run) -/
+
+/-- OBLIGATION: `PublishContext` copies the registrations of the type under the shard's read lock, releases it, and only then walks the copy (M1's `publish` takes its snapshot before any handler runs) -/
+theorem flow_snapshot_then_dispatch : Ebu.Flow.publishPrelude = true := by decide +kernel
+
+/-- OBLIGATION: one snapshot entry is handled in the order filter, once claim, dispatch – inside the loop over the snapshot -/
+theorem flow_dispatch_order : Ebu.Flow.dispatchOrder = true := by decide +kernel
+
+/-- OBLIGATION: fired once handlers are removed after the loop, under the write lock, by pointer identity of the registration, one entry each -/
+theorem flow_retire_by_identity : Ebu.Flow.retireByIdentity = true := by decide +kernel
 
 end Ebu.Props.C01
